@@ -63,7 +63,10 @@ Masked(v) ==
 LeakTags(D, v, res) ==
   IF IsList(v) \/ ~res.ok \/ WF(D, v) THEN {}
   ELSE LET mv == Masked(v) IN
-       IF mv # v /\ WF(D, mv) /\ ~EncEq(D, mv, res.out) THEN {"C08:oversize_field_corrupts_neighbours"} ELSE {}
+       \* a relative clause: the encoding of a packet kind that carries a pinned deviation is compared with
+       \* what that deviation produces for the reduced value (the deviation itself is reported where it belongs)
+       IF mv # v /\ WF(D, mv) /\ ~EncEq(D, mv, res.out) /\ ~(WF(Deviations, mv) /\ EncEq(Deviations, mv, res.out))
+       THEN {"C08:oversize_field_corrupts_neighbours"} ELSE {}
 
 MarshalTags(D, v, res) ==
   IF res.panic THEN {"PANIC:marshal"}
